@@ -84,6 +84,11 @@ OperatorKills ==
     /\ phase' = "closed" /\ table' = FALSE
     /\ toClient' = Append(toClient, "eof") /\ toAgent' = Append(toAgent, "close")
     /\ UNCHANGED sc /\ Log("OperatorKills")
+(* time passes - longer than any handshake takes - with the connection waiting for the agent's connect result or established and idle:
+   nothing changes, whatever comes next comes as it would have (not part of Next: generated by its own family) *)
+Wait ==
+    /\ phase \in {"requested", "relaying"} /\ \A i \in 1..Len(hist) : hist[i].op # "Wait"
+    /\ UNCHANGED <<sc, phase, toClient, toAgent, table>> /\ Log("Wait")
 Next == Handshake \/ AgentAnswer \/ Relay \/ ClientCloses \/ AgentCloses \/ OperatorKills
 Spec == Init /\ [][Next]_vars
 -----------------------------------------------------------------------------
